@@ -1653,3 +1653,109 @@ def rf172(run):
                 run.violation(rule, f, 'text of an lref item', 'MIR_output_item prints an lref item with %s second label and displacement %d as `%s`, '
                               'expected `%s`: the module read back refers to another address' % ('a' if lab2 else 'no', disp, txt, want), line=sites[0]['l'])
     return n
+
+
+# ---------------------------------------------------------------------------------------------
+# RF176: the reader's label table is a function number -> label
+# ---------------------------------------------------------------------------------------------
+
+def rf176(run):
+    from lib import printexec as PE
+    rule = 'RF176'
+    run.rule(rule, 'binary reader, to_lab: the body is executed abstractly on sequences of label numbers over a model of the table '
+                   '(VARR_LENGTH / PUSH / GET / SET / ADDR and memmove / memset on its storage as list operations, create_label returning '
+                   'a fresh object).  Within one module the same number always yields the same label and two different numbers never '
+                   'yield the same label — in whatever order the numbers arrive (a label created ahead of its use has a number far below '
+                   'the first one met).  The layout of the table is free; only the mapping is judged')
+    tu = run.tu('mir')
+    f = tu.func('to_lab')
+    run.functions_analysed.add(('mir', f.name))
+    body = f.body
+    BASE = 1 << 40
+    seqs = [[5, 6, 5, 7, 6], [100, 101, 40, 100, 40, 7, 101, 300, 7, 100], [64, 0, 64, 31, 33, 0, 31], [500, 10, 499, 500, 10, 11, 499]]
+    n = 0
+    for seq in seqs:
+        tab = []
+        made = {}
+        counter = [0]
+
+        def mk(a, e, x):
+            counter[0] += 1
+            lab = 7000 + counter[0]
+            made[lab] = x.val(a[1], e)
+            return lab
+
+        def off(v):
+            if not isinstance(v, int) or v < BASE:
+                raise F.AnalysisBroken('to_lab: a pointer into the table is not recognised')
+            return v - BASE
+
+        def mmove(a, e, x):
+            d, s_, nb = off(x.val(a[0], e)), off(x.val(a[1], e)), x.val(a[2], e)
+            if not isinstance(nb, int) or nb % 8:
+                raise F.AnalysisBroken('to_lab: size of a table move is not recognised')
+            k = nb // 8
+            while len(tab) < max(d, s_) + k:
+                raise F.AnalysisBroken('to_lab: a table move runs past the end of the table')
+            chunk = tab[s_:s_ + k]
+            tab[d:d + k] = chunk
+            return BASE + d
+
+        def mset(a, e, x):
+            d, v, nb = off(x.val(a[0], e)), x.val(a[1], e), x.val(a[2], e)
+            if v != 0 or not isinstance(nb, int) or nb % 8:
+                raise F.AnalysisBroken('to_lab: memset on the table is not recognised')
+            for k in range(nb // 8):
+                tab[d + k] = 0
+            return BASE + d
+
+        def vset(a, e, x):
+            i = x.val(a[1], e)
+            tab[i] = x.val(a[2], e)
+            return 0
+
+        def vpush(a, e, x):
+            tab.append(x.val(a[1], e))
+            return 0
+        acc = {'VARR_MIR_label_tlength': lambda a, e, x: len(tab), 'VARR_MIR_label_tget': lambda a, e, x: tab[x.val(a[1], e)],
+               'VARR_MIR_label_taddr': lambda a, e, x: BASE, 'VARR_MIR_label_tlast': lambda a, e, x: tab[-1],
+               'VARR_MIR_label_tset': vset, 'VARR_MIR_label_tpush': vpush,
+               'create_label': mk, 'memmove': mmove, 'memcpy': mmove, 'memset': mset}
+        got = {}
+        glob = {'ctx->curr_label_num': 0}
+        why = None
+        for num in seq:
+            ex = PE.PrintExec(tu, {}, acc, {}, max_iter=2000)
+            ex.exec_unit_calls = True
+            env = dict(glob)
+            env['lab_num'] = num
+            try:
+                r = ex.run(body, env)
+            except (IndexError, TypeError) as e_:
+                raise F.AnalysisBroken('to_lab: model execution failed for %s: %s' % (seq, e_))
+            except F.AnalysisBroken as e_:
+                raise F.AnalysisBroken('to_lab (%s): %s' % (seq, e_))
+            lab = getattr(ex, 'retval', None)
+            if lab is None:
+                lab = env.get('lab')
+            # context fields written by the body stay for the next call
+            for k_, v_ in env.items():
+                if k_.startswith('ctx->'):
+                    glob[k_] = v_
+            if lab in (None, 0):
+                why = 'no label is returned for number %d' % num
+                break
+            if num in got and got[num] != lab:
+                why = 'number %d yields two different labels' % num
+                break
+            other = [k_ for k_, v_ in got.items() if v_ == lab and k_ != num]
+            if other:
+                why = 'numbers %d and %d yield the same label' % (other[0], num)
+                break
+            got[num] = lab
+        n += 1
+        run.ob(rule, (tuple(seq),), why is None, {'label numbers in order of arrival': seq, 'labels created': len(made), 'verdict': why or 'a function, injective'})
+        if why:
+            run.violation(rule, f, 'label table of the binary reader', 'to_lab, executed on the label numbers %s: %s — branch targets of the '
+                          'module read back are attached to the wrong label' % (seq, why), line=f.line)
+    return n
